@@ -133,6 +133,16 @@ class ElemRef:
         self.v.items[self.i] = x
 
 
+class Iter:
+    """std::vector iterator: (vector, index)."""
+    def __init__(self, v, i):
+        self.v = v
+        self.i = i
+
+    def __repr__(self):
+        return "Iter(%d/%d)" % (self.i, len(self.v.items))
+
+
 class Closure:
     def __init__(self, node, env, this):
         self.node = node
@@ -253,7 +263,7 @@ def _frac(s):
 
 
 class Interp:
-    def __init__(self, prog, oracle, lattice=False, hooks=None, max_steps=2000000, bool_unknown=None):
+    def __init__(self, prog, oracle, lattice=False, hooks=None, max_steps=2000000, globals=None):
         self.prog = prog
         self.oracle = oracle
         self.lattice = lattice          # symbolic inputs are integer-valued (C16): tolerances fold into sign atoms
@@ -262,6 +272,7 @@ class Interp:
         self.max_steps = max_steps
         self.events = []
         self.depth = 0
+        self.globals = globals or {}    # qualified name -> Box: symbolic / overridden globals and static members
 
     # ---- signs / comparisons --------------------------------------------
     def sign_poly(self, p):
@@ -306,7 +317,11 @@ class Interp:
         if not is_sym(a) and not is_sym(b):
             s = (a > b) - (a < b)
         else:
-            s = self.sign(r_sub(a, b))
+            dn, dd = num_den(r_sub(a, b))
+            if not dn.t:
+                s = 0       # identical values (denominators are non-zero whenever the values exist)
+            else:
+                s = self.sign(r_sub(a, b))
         return {"<": s < 0, ">": s > 0, "<=": s <= 0, ">=": s >= 0, "==": s == 0, "!=": s != 0}[op]
 
     def num(self, v):
@@ -416,8 +431,8 @@ class Interp:
                 new[p["did"]] = self.bind_ref(an, env)
             else:
                 v = self.ev(an, env)
-                if isinstance(v, (Obj, Vec)) and not _is_copy_construct(an):
-                    v = copy.deepcopy(v)
+                if not _is_copy_construct(an):
+                    v = vcopy(v, pt)
                 new[p["did"]] = Box(v)
         new["this"] = this
         try:
@@ -445,8 +460,8 @@ class Interp:
                 this.f[ini["member"]] = self.ev(e, env)
             else:
                 v = self.ev(e, env)
-                if isinstance(v, (Obj, Vec)) and not _is_copy_construct(e):
-                    v = copy.deepcopy(v)
+                if not _is_copy_construct(e):
+                    v = vcopy(v, fld["t"] if fld is not None else "")
                 this.f[ini["member"]] = v
         elif ini.get("base"):
             ek = _strip(e)
@@ -496,8 +511,8 @@ class Interp:
             v = None
             if ch:
                 v = self.ev(ch[0], env)
-                if isinstance(v, (Obj, Vec)) and not _is_copy_construct(ch[0]):
-                    v = copy.deepcopy(v)
+                if not _is_copy_construct(ch[0]):
+                    v = vcopy(v, _strip(ch[0]).get("t", "") if not _strip(ch[0]).get("lv") or True else "")
             raise _Return(v)
         elif k == "ForStmt":
             if n.get("init"):
@@ -538,7 +553,7 @@ class Interp:
             var = n["var"]
             byref = var["t"].endswith("&")
             for i in range(len(rng.items)):
-                env[var["did"]] = ElemRef(rng, i) if byref else Box(copy.deepcopy(rng.items[i]))
+                env[var["did"]] = ElemRef(rng, i) if byref else Box(vcopy(rng.items[i], var["t"]))
                 try:
                     self.ex(n.get("body"), env)
                 except _Break:
@@ -605,8 +620,8 @@ class Interp:
                 env[d["did"]] = self.bind_ref(d["init"], env)
                 return
             v = self.ev(d["init"], env)
-            if isinstance(v, (Obj, Vec)) and not _is_copy_construct(d["init"]):
-                v = copy.deepcopy(v)
+            if not _is_copy_construct(d["init"]):
+                v = vcopy(v, t)
             env[d["did"]] = Box(v)
         else:
             env[d["did"]] = Box(self.default_value(t))
@@ -678,6 +693,8 @@ class Interp:
 
     def global_ref(self, n):
         q = n["ref"]
+        if q in self.globals:
+            return self.globals[q]
         v = self.prog.vars.get(q)
         if v is None:
             raise Unsupported("unknown variable %s" % q)
@@ -899,9 +916,7 @@ class Interp:
             self.ev(l, env)
             return self.ev(r, env)
         if op == "=":
-            v = self.ev(r, env)
-            if isinstance(v, (Obj, Vec)):
-                v = copy.deepcopy(v)
+            v = vcopy(self.ev(r, env), _strip(l).get("t", ""))
             ref = self.lv(l, env)
             ref.set(v)
             return v
@@ -971,6 +986,12 @@ class Interp:
                 o.f["first"] = self.ev(args[0], env)
                 o.f["second"] = self.ev(args[1], env)
             return o
+        if cname.startswith("__gnu_cxx::__normal_iterator"):
+            if args:
+                v = self.ev(args[0], env)
+                if isinstance(v, Iter):
+                    return Iter(v.v, v.i)
+            return Iter(Vec([]), 0)
         if cname.startswith("std::"):
             if n.get("copy") and args:
                 return copy.deepcopy(self.ev(args[0], env))
@@ -1169,7 +1190,7 @@ class Interp:
                 return len(recv.items) == 0
             if meth == "push_back" or meth == "emplace_back":
                 v = self.ev(args[0], env)
-                recv.items.append(copy.deepcopy(v) if isinstance(v, (Obj, Vec)) else v)
+                recv.items.append(vcopy(v, recv.elem or _strip(args[0]).get("t", "")))
                 return None
             if meth == "clear":
                 recv.items[:] = []
@@ -1196,6 +1217,10 @@ class Interp:
                 return None
             if meth == "reserve":
                 return None
+            if meth in ("begin", "cbegin"):
+                return Iter(recv, 0)
+            if meth in ("end", "cend"):
+                return Iter(recv, len(recv.items))
         if isinstance(recv, StreamVal):
             if meth == "str":
                 return recv
@@ -1206,6 +1231,38 @@ class Interp:
         raise Unsupported("std member %s on %r" % (cname, recv))
 
     def std_operator(self, n, op, cname, args, env, want_ref):
+        if cname.startswith("__gnu_cxx::") or "__normal_iterator" in cname:
+            if op in ("++", "--"):
+                ref = self.lv(args[0], env)
+                it = ref.get()
+                if isinstance(it, Iter):
+                    new = Iter(it.v, it.i + (1 if op == "++" else -1))
+                    ref.set(new)
+                    return it if len(args) > 1 else new     # postfix form has a dummy int argument
+            if op in ("!=", "==", "<"):
+                a = self.ev(args[0], env)
+                b = self.ev(args[1], env)
+                if isinstance(a, Iter) and isinstance(b, Iter):
+                    if a.v is not b.v:
+                        raise Unsupported("comparison of iterators into different vectors")
+                    return {"!=": a.i != b.i, "==": a.i == b.i, "<": a.i < b.i}[op]
+            if op == "*":
+                it = self.ev(args[0], env)
+                if isinstance(it, Iter):
+                    r = ElemRef(it.v, it.i)
+                    return r if want_ref else r.get()
+            if op == "->":
+                it = self.ev(args[0], env)
+                if isinstance(it, Iter):
+                    return ElemRef(it.v, it.i).get()
+            if op == "+" or op == "-":
+                a = self.ev(args[0], env)
+                b = self.ev(args[1], env)
+                if isinstance(a, Iter) and isinstance(b, int):
+                    return Iter(a.v, a.i + (b if op == "+" else -b))
+                if isinstance(a, Iter) and isinstance(b, Iter) and op == "-":
+                    return a.i - b.i
+            raise Unsupported("iterator operator %s" % op)
         if op == "[]":
             b = self.lv(args[0], env).get() if _strip(args[0]).get("lv") else self.ev(args[0], env)
             i = self.ev(args[1], env)
@@ -1295,6 +1352,28 @@ def _strip(n):
             break
         n = c[0]
     return n
+
+
+def _copy(v):
+    if isinstance(v, Iter):
+        return Iter(v.v, v.i)
+    return copy.deepcopy(v)
+
+
+def _is_ptr(t):
+    t = (t or "").strip()
+    while t.endswith("const"):
+        t = t[:-5].strip()
+    return t.endswith("*")
+
+
+def vcopy(v, t):
+    """Value semantics: copying an object value copies it; copying a pointer aliases."""
+    if isinstance(v, Iter):
+        return Iter(v.v, v.i)
+    if isinstance(v, (Obj, Vec)) and not _is_ptr(t):
+        return copy.deepcopy(v)
+    return v
 
 
 def _is_copy_construct(n):
